@@ -235,6 +235,24 @@ class Rec(io.StringIO):
         raise io.UnsupportedOperation("fileno")
 
 
+class MinimalStream:
+    """What GUI consoles, log tees and IDE shims install as sys.stdout: write() and flush(), nothing else
+    (no isatty, no encoding, no fileno). Everything written is recorded."""
+
+    def __init__(self):
+        self._buf = []
+
+    def write(self, s):
+        self._buf.append(s)
+        return len(s)
+
+    def flush(self):
+        pass
+
+    def getvalue(self):
+        return "".join(self._buf)
+
+
 def set_terminal_env(root, no_color=False):
     for v in TERM_VARS:
         os.environ.pop(v, None)
